@@ -5,3 +5,6 @@ pub const RISTRETTO_BASEPOINT_POINT: RistrettoPoint = RistrettoPoint(1);
 
 /// the compressed basepoint: a fixed reserved literal that `decompress`/`compress` special-case
 pub const RISTRETTO_BASEPOINT_COMPRESSED: CompressedRistretto = CompressedRistretto(crate::ristretto::BASEPOINT_BYTES);
+
+/// model of the basepoint table (see ristretto::RistrettoBasepointTable)
+pub static RISTRETTO_BASEPOINT_TABLE: &crate::ristretto::RistrettoBasepointTable = &crate::ristretto::RistrettoBasepointTable;
